@@ -20,6 +20,9 @@ def sortedFI : FI → Bool
   | [_] => true
   | p :: q :: qs => decide (p.1 < q.1) && sortedFI (q :: qs)
 
+/-- an index free in both lists has the same extent in both -/
+def dimsAgree (f g : FI) : Bool := f.all (fun p => !FI.has p.1 g || FI.dimOf p.1 g == p.2)
+
 def fixedInRange (sh : List Nat) (is : List Idx) : Bool :=
   (is.zipIdx).all (fun p => match p.1 with | .fixed v => decide (v < sh.getD p.2 0) | .free _ => true)
 
@@ -31,7 +34,7 @@ def WF : Expr → Bool
   | .op k _ args =>
     match k, args with
     | .sum, [a, b] => WF a && WF b && shape a == shape b && fi a == fi b
-    | .product, [a, b] => WF a && WF b && (shape a).isEmpty && (shape b).isEmpty
+    | .product, [a, b] => WF a && WF b && (shape a).isEmpty && (shape b).isEmpty && dimsAgree (fi a) (fi b)
     | .division, [a, b] => WF a && WF b && (shape a).isEmpty && trueScalar b
     | .power, [a, b] => WF a && WF b && trueScalar a && trueScalar b
     | .abs, [a] | .conj, [a] | .real, [a] | .imag, [a] => WF a
